@@ -35,12 +35,34 @@ StoredVal(v) == IF v \in {"nil", "empty"} THEN "" ELSE v
 AbsExp(t, c) == CASE c = "none" -> 0 [] c = "s1" -> t + 1 [] c = "s3" -> t + 3 [] c = "long" -> t + 99
                   [] c = "f23" -> t + 23 [] c = "f27" -> t + 27 [] c = "far" -> t + 9999 [] c = "past" -> t - 1
 
-\* glob matching over character tuples: "*" any sequence, "?" any one character
+\* glob matching over tuples of pattern elements (the syntax kvs.go refers to: github.com/gobwas/glob, compiled without
+\* separators).  An element is a character, "*" (any sequence), "?" (any one character), or one of the multi-character
+\* tokens below, which the harness writes into the pattern string verbatim:
+\*   "{..,..}"  alternatives (gobwas only - the Redis server's own matcher has no alternatives, so patterns with them are
+\*              replayed on the in-memory backend only);
+\*   "[..]"     a character class: list, range, negated with "!" (gobwas spelling; in-memory backend only)
+AltToks == {"{a,ab}", "{a,d/b}", "{b,c}", "{a,x}", "{ab,d/b}"}
+AltOf(t) == CASE t = "{a,ab}"   -> {<<"a">>, <<"a", "b">>}
+              [] t = "{a,d/b}"  -> {<<"a">>, <<"d", "/", "b">>}
+              [] t = "{b,c}"    -> {<<"b">>, <<"c">>}
+              [] t = "{a,x}"    -> {<<"a">>, <<"x">>}
+              [] t = "{ab,d/b}" -> {<<"a", "b">>, <<"d", "/", "b">>}
+ClsToks == {"[ab]", "[a-c]", "[!d]", "[!a-c]"}
+ClsOf(t) == CASE t = "[ab]"   -> [set |-> {"a", "b"}, neg |-> FALSE]
+              [] t = "[a-c]"  -> [set |-> {"a", "b", "c"}, neg |-> FALSE]
+              [] t = "[!d]"   -> [set |-> {"d"}, neg |-> TRUE]
+              [] t = "[!a-c]" -> [set |-> {"a", "b", "c"}, neg |-> TRUE]
 RECURSIVE GlobMatch(_, _)
 GlobMatch(p, str) ==
     IF p = <<>> THEN str = <<>>
     ELSE IF Head(p) = "*"
          THEN \E n \in 0 .. Len(str) : GlobMatch(Tail(p), SubSeq(str, n + 1, Len(str)))
+    ELSE IF Head(p) \in AltToks
+         THEN \E a \in AltOf(Head(p)) : GlobMatch(a \o Tail(p), str)
+    ELSE IF Head(p) \in ClsToks
+         THEN /\ str # <<>>
+              /\ ((Head(str) \in ClsOf(Head(p)).set) # ClsOf(Head(p)).neg)
+              /\ GlobMatch(Tail(p), Tail(str))
          ELSE /\ str # <<>>
               /\ (Head(p) = "?" \/ Head(p) = Head(str))
               /\ GlobMatch(Tail(p), Tail(str))
